@@ -648,6 +648,30 @@ Proof.
   unfold apply_search, get_search_position. rewrite E. auto.
 Qed.
 
+(* get_search_position: the cursor of the landing position when the landing
+   line is the current one, otherwise (other line, or nothing found) the
+   current cursor; in every case a valid cursor of the current text, and when
+   it differs from the current cursor the needle occurs there *)
+Lemma get_search_position_spec b st icp count :
+  Inv b ->
+  get_search_position ceq b st icp count =
+  match search ceq b st icp count with
+  | SFound w c => if w =? wi b then c else cur b
+  | SNone => cur b
+  end /\
+  0 <= get_search_position ceq b st icp count <= len (entry (wl b) (wi b)) /\
+  (get_search_position ceq b st icp count <> cur b ->
+   occurs (sic st) (stext st) (entry (wl b) (wi b)) (get_search_position ceq b st icp count)).
+Proof.
+  intros HI. split; [reflexivity|]. unfold get_search_position.
+  destruct (search ceq b st icp count) as [|w c] eqn:E.
+  - split; [apply HI|congruence].
+  - destruct (search_real _ _ _ _ _ _ HI E) as [[_ Hc] Hocc]. cbn [moved wl wi cur] in Hc.
+    destruct (w =? wi b) eqn:Ew.
+    + apply Z.eqb_eq in Ew. subst w. split; [exact Hc|intros _; exact Hocc].
+    + split; [apply HI|congruence].
+Qed.
+
 Lemma moved_self b : moved b (wi b) (cur b) = b.
 Proof. now destruct b. Qed.
 
